@@ -13,6 +13,36 @@ import (
 	"verif/harness/vgen"
 )
 
+var copiesDiffer []string
+
+// templateCopiesDiffer compares the generated gRPC / HTTP copies of the transform sources of the
+// repository under check (VERIF_REPO, default /repo) after replacing the package names.
+func templateCopiesDiffer() []string {
+	repo := os.Getenv("VERIF_REPO")
+	if repo == "" {
+		repo = "/repo"
+	}
+	pairs := [][3]string{
+		{"exporters/otlp/otlpmetric/otlpmetrichttp/internal/transform/metricdata.go", "exporters/otlp/otlpmetric/otlpmetricgrpc/internal/transform/metricdata.go", "otlpmetric"},
+		{"exporters/otlp/otlpmetric/otlpmetrichttp/internal/transform/attribute.go", "exporters/otlp/otlpmetric/otlpmetricgrpc/internal/transform/attribute.go", "otlpmetric"},
+		{"exporters/otlp/otlplog/otlploghttp/internal/transform/log.go", "exporters/otlp/otlplog/otlploggrpc/internal/transform/log.go", "otlplog"},
+	}
+	var out []string
+	for _, p := range pairs {
+		a, errA := os.ReadFile(repo + "/" + p[0])
+		b, errB := os.ReadFile(repo + "/" + p[1])
+		if errA != nil || errB != nil {
+			continue
+		}
+		na := strings.ReplaceAll(string(a), p[2]+"http", p[2]+"X")
+		nb := strings.ReplaceAll(string(b), p[2]+"grpc", p[2]+"X")
+		if na != nb {
+			out = append(out, p[0])
+		}
+	}
+	return out
+}
+
 func main() {
 	only := flag.String("only", "", "restrict to one signal: traces|logs|metrics|zipkin (debugging)")
 	o := vgen.ParseFlags()
@@ -24,8 +54,14 @@ func main() {
 			os.Unsetenv(k)
 		}
 	}
+	// The gRPC and HTTP transform packages are rendered from one template: a textual difference
+	// between the copies (modulo the package path) is no alarm, but it triples the search.
+	if d := templateCopiesDiffer(); len(d) > 0 {
+		o.Scale *= 3
+		copiesDiffer = d
+	}
 	r := vgen.NewRand(o.Seed)
-	w := vgen.NewWriter(o.Out, "C13.Types C13.Model C13.Spec C13.Corr", "case", 96)
+	w := vgen.NewWriter(o.Out, "C13.Types C13.Model C13.Spec C13.Corr", "case", 240)
 	w.Rule = "batches of spans / log records mixing 1-4 resources and 0-4 scopes (shared, empty, differing only in one field), metric ResourceMetrics with every " +
 		"aggregation kind and number type, Zipkin batches; each exported through the real exporters to in-process collectors (true wire round trip) and decoded; " +
 		"a case is non-trivial when it holds more than one item or an item with attributes; distinct = distinct Coq case terms"
@@ -61,7 +97,7 @@ func main() {
 		for i, b := range traceCorpus() {
 			guard(map[string]any{"signal": "traces", "corpus": i}, func() { runTraceBatch(ctx, w, tr, b, "traces-corpus") })
 		}
-		n := o.Count(260, 6000)
+		n := o.Count(230, 6000)
 		for i := 0; i < n; i++ {
 			b := genSpanBatch(rr, i%3 == 0)
 			guard(map[string]any{"signal": "traces", "batch": i}, func() { runTraceBatch(ctx, w, tr, b, "traces") })
@@ -77,6 +113,7 @@ func main() {
 	if want("zipkin") {
 		runZipkin(ctx, w, r.Fork(), o, hc, guard)
 	}
+	w.Extra["transform_copies_differing"] = copiesDiffer
 	if err := w.Flush(); err != nil {
 		fmt.Fprintln(os.Stderr, err)
 		os.Exit(2)
